@@ -14,7 +14,8 @@ import (
 type spyWriter struct {
 	hdr    http.Header
 	events []string
-	fwd    int // what the next Write will accept
+	fwd    int  // what the next Write will accept
+	fail   bool // … and whether it reports an error on top (a connection reset mid-body)
 }
 
 func (s *spyWriter) Header() http.Header { return s.hdr }
@@ -25,6 +26,9 @@ func (s *spyWriter) Write(b []byte) (int, error) {
 		n = len(b)
 	}
 	s.events = append(s.events, fmt.Sprintf("body%d", n))
+	if s.fail {
+		return n, fmt.Errorf("connection reset")
+	}
 	return n, nil
 }
 func (s *spyWriter) Flush() { s.events = append(s.events, "flush") }
@@ -69,7 +73,9 @@ func execWriter(args []string, lines [][]string) []string {
 			switch {
 			case len(l) == 3 && l[1] == "wh":
 				w.WriteHeader(atoi(l[2]))
-			case len(l) == 4 && l[1] == "w":
+			case len(l) == 4 && (l[1] == "w" || l[1] == "we"):
+				// "we": the underlying writer forwards `fwd` bytes AND returns an error
+				spy.fail = l[1] == "we"
 				spy.fwd = atoi(l[3])
 				n, _ := w.Write(make([]byte, atoi(l[2])))
 				obs = n
@@ -112,6 +118,9 @@ func writerOp(r *rand.Rand, hook *int) string {
 		if r.Intn(3) == 0 {
 			f = r.Intn(n + 1)
 		}
+		if r.Intn(5) == 0 {
+			return fmt.Sprintf("W we %d %d", n, f)
+		}
 		return fmt.Sprintf("W w %d %d", n, f)
 	case k < 11:
 		return "W fl"
@@ -129,7 +138,7 @@ func writerOp(r *rand.Rand, hook *int) string {
 
 func genWriter(r *rand.Rand, tier string, emit Emit) {
 	// exhaustive small scope first, then random longer sequences
-	alphabet := []string{"W wh 201", "W wh 404", "W w 3 3", "W w 3 1", "W w 0 0", "W fl", "W bf %d", "W st", "W wr"}
+	alphabet := []string{"W wh 201", "W wh 404", "W w 3 3", "W w 3 1", "W we 3 2", "W w 0 0", "W fl", "W bf %d", "W st", "W wr"}
 	depth, random := 3, 3000
 	if tier == "thorough" {
 		depth, random = 5, 100000
